@@ -126,7 +126,7 @@ func (fd *Client) CreateTable(input *dynamodb.CreateTableInput) (*dynamodb.Creat
 
 	newTable := core.NewTable(tableName)
 	newTable.SetAttributeDefinition(mapAttributeDefinitionToTypes(input.AttributeDefinitions))
-	newTable.BillingMode = input.BillingMode
+	newTable.BillingMode = cloneString(input.BillingMode)
 	newTable.NativeInterpreter = *fd.nativeInterpreter
 	newTable.UseNativeInterpreter = fd.useNativeInterpreter
 	newTable.LangInterpreter = *fd.langInterpreter
